@@ -58,7 +58,10 @@ def conv(kind="conv", ifm=(1, 16, 16, 8), k=(3, 3), s=(1, 1), d=(1, 1), same=Tru
         wi = n.act(wshape, wdt, q=(wsc[0], wzp), name="dynw")
         n.inputs.append(wi)
     else:
-        vals = None if wvalue is None else np.full(wshape, wvalue)
+        if wvalue == "alt127":
+            vals = np.where(np.arange(int(np.prod(wshape))) % 2 == 0, 127, -127).reshape(wshape)
+        else:
+            vals = None if wvalue is None else np.full(wshape, wvalue)
         wi = n.const(wshape, wdt, "weights", scale=wsc, zp=wzp, values=vals)
         if per_channel and kind != "conv":
             n.T(wi)["quant"]["qdim"] = 3
@@ -424,6 +427,11 @@ def families(tier):
         add(kind + ".bias42", conv(kind, dt="int16", bias="int64", bias_values=[(1 << 41)] * 8))
     add("conv.wsum.at", conv("conv", ifm=(1, 64, 64, 16), k=(64, 64), same=False, cout=1, wvalue=127))
     add("conv.wsum.over", conv("conv", ifm=(1, 64, 64, 17), k=(64, 64), same=False, cout=1, wvalue=127))
+    # the limit is on the sum of magnitudes: weights of opposite sign must not cancel
+    add("conv.wsum.over.mixed_sign", conv("conv", ifm=(1, 64, 64, 17), k=(64, 64), same=False, cout=2, wvalue="alt127"))
+    add("conv.wsum.at.mixed_sign", conv("conv", ifm=(1, 64, 64, 16), k=(64, 64), same=False, cout=2, wvalue="alt127"))
+    add("conv.wsum.over.negative", conv("conv", ifm=(1, 64, 64, 17), k=(64, 64), same=False, cout=1, wvalue=-127))
+    add("dw.wsum.small", conv("dw", ifm=(1, 8, 8, 8), k=(8, 8), same=True, wvalue="alt127"))
     add("conv.dim65535", conv("conv", ifm=(1, 1, 65535, 1), k=(1, 1), cout=1))
     add("conv.dim65536", conv("conv", ifm=(1, 1, 65536, 1), k=(1, 1), cout=1))
     for dm, c in ((1, 8), (2, 1), (2, 8), (4, 1), (3, 2)):
